@@ -1183,6 +1183,198 @@ func c31(c *hx.Ctx) {
 	for i := 0; i < c.N/3; i++ {
 		incoming(c, uni, true)
 	}
+
+	// 4. simultaneous-entry hammer (oracle only)
+	budget := 2500 * time.Millisecond
+	if c.Tier == "thorough" {
+		budget = 15 * time.Second
+	}
+	hammer(c, budget)
+}
+
+// hammer: K callers spinning on a two-phase barrier (all arrived, then go) enter
+// AcceptMountedStream on a FRESH value within nanoseconds of each other, one
+// core each; thousands of rounds inside the time budget; in a third of the
+// rounds one more caller races Close. This is the only lever a black-box
+// harness has on a race inside one method (a lock-free check followed by a
+// locked update): it needs real parallelism, so the hit rate depends on the
+// machine. Batches of rounds with a fixed K (mostly 2-4: fewer cores needed at
+// the same instant); only the K+1 workers of the running batch spin.
+// Oracle: at most one caller per value obtains the stream; if a Close returned
+// true or reached the stream, none does.
+func hammer(c *hx.Ctx, budget time.Duration) {
+	old := runtime.GOMAXPROCS(runtime.NumCPU())
+	defer runtime.GOMAXPROCS(old)
+	maxK := runtime.NumCPU() - 2
+	if maxK > 16 {
+		maxK = 16
+	}
+	if maxK < 2 {
+		maxK = 2
+	}
+	ks := []int{2, 3, 2, 4, 2, 8, 3, 2, 16, 4}
+	deadline := time.Now().Add(budget)
+	per := budget / time.Duration(len(ks))
+	rounds, multi, closedRounds, aborted := 0, 0, 0, false
+	for bi := 0; time.Now().Before(deadline) && !aborted; bi++ {
+		k := ks[bi%len(ks)]
+		if k > maxK {
+			k = maxK
+		}
+		end := time.Now().Add(per)
+		if end.After(deadline) {
+			end = deadline
+		}
+		r, m, cl, ab := hammerBatch(c, k, end, rounds)
+		rounds += r
+		multi += m
+		closedRounds += cl
+		aborted = ab
+	}
+	if aborted {
+		c.Class("value-hammer-aborted")
+	} else {
+		c.Class("value-hammer")
+	}
+	c.Extra["hammer"] = map[string]any{"rounds": rounds, "rounds_with_close": closedRounds, "rounds_with_several_owners": multi,
+		"max_callers": maxK, "budget_ms": budget.Milliseconds(), "aborted": aborted}
+}
+
+func hammerBatch(c *hx.Ctx, k int, end time.Time, roundBase int) (rounds, multi, closedRounds int, aborted bool) {
+	type slot struct {
+		res int32 // 0 none, 1 stream, 2 already, 3 err, 4 close true, 5 close false
+		_   [60]byte
+	}
+	type cmdWord struct {
+		round atomic.Int64 // the round this worker takes part in (written by the driver only)
+		_     [56]byte
+	}
+	var (
+		cur    atomic.Pointer[link_solicit.SolicitMountedStream]
+		ready  atomic.Int64
+		done   atomic.Int64
+		quit   atomic.Bool
+		party  atomic.Int64
+		closer atomic.Int64
+	)
+	slots := make([]slot, k+1)
+	cmds := make([]cmdWord, k+1)
+	var wg sync.WaitGroup
+	for w := 0; w <= k; w++ {
+		wg.Add(1)
+		go func(w int) {
+			defer wg.Done()
+			seen := int64(0)
+			for {
+				spins := 0
+				for cmds[w].round.Load() == seen {
+					if quit.Load() {
+						return
+					}
+					if spins++; spins&0x3ff == 0 {
+						runtime.Gosched()
+					}
+				}
+				seen = cmds[w].round.Load()
+				v := *cur.Load()
+				isCloser := closer.Load() == int64(w)
+				ready.Add(1)
+				for ready.Load() < party.Load() {
+					if quit.Load() {
+						return
+					}
+				}
+				var r int32
+				if isCloser {
+					if v.(interface{ Close() bool }).Close() {
+						r = 4
+					} else {
+						r = 5
+					}
+				} else {
+					_, already, err := v.AcceptMountedStream()
+					switch {
+					case err != nil:
+						r = 3
+					case already:
+						r = 2
+					default:
+						r = 1
+					}
+				}
+				atomic.StoreInt32(&slots[w].res, r)
+				done.Add(1)
+			}
+		}(w)
+	}
+	for time.Now().Before(end) && !aborted {
+		withClose := rounds%3 == 2
+		cs := &countStream{}
+		v := link_solicit.NewSolicitMountedStream(&fakeMS{strm: cs, pid: "solicit:00"})
+		n := k
+		closer.Store(-1)
+		if withClose {
+			closer.Store(int64(k))
+			n = k + 1
+		}
+		cur.Store(&v)
+		party.Store(int64(n))
+		ready.Store(0)
+		done.Store(0)
+		for w := 0; w < n; w++ {
+			atomic.StoreInt32(&slots[w].res, 0)
+		}
+		for w := 0; w < n; w++ {
+			cmds[w].round.Store(int64(rounds + 1))
+		}
+		spins := 0
+		roundStart := time.Now()
+		for done.Load() < int64(n) {
+			if spins++; spins&0xff == 0 {
+				runtime.Gosched()
+				if spins&0xffff == 0 && time.Since(roundStart) > 5*time.Second {
+					aborted = true // starved machine: give up rather than hang
+					break
+				}
+			}
+		}
+		if aborted {
+			break
+		}
+		streams, closeTrue := 0, false
+		for w := 0; w < n; w++ {
+			switch atomic.LoadInt32(&slots[w].res) {
+			case 0:
+				panic("hammer: a participant did not report")
+			case 1:
+				streams++
+			case 4:
+				closeTrue = true
+			}
+		}
+		rounds++
+		c.Eval()
+		if withClose {
+			closedRounds++
+		}
+		desc := map[string]any{"kind": "value-hammer", "callers": k, "with_close": withClose, "round": roundBase + rounds,
+			"callers_that_got_the_stream": streams, "close_returned_true": closeTrue, "stream_closes": cs.closes.Load()}
+		if streams > 1 {
+			multi++
+			if multi <= 2 {
+				c.Failf("two-owners", desc, "%d of %d simultaneous AcceptMountedStream calls on one fresh value returned the stream", streams, k)
+			}
+		}
+		if streams > 0 && (closeTrue || cs.closes.Load() > 0) {
+			c.Failf("accepted-stream-closed", desc, "the stream was handed out and closed by the solicitation in one round")
+		}
+		if streams == 0 && !closeTrue {
+			c.Failf("no-owner", desc, "no caller obtained the stream and no Close succeeded")
+		}
+	}
+	quit.Store(true)
+	wg.Wait()
+	return
 }
 
 func min(a, b int) int {
